@@ -139,6 +139,71 @@ def rec_fit(args):
     return rec
 
 
+class _Budget(Exception):
+    pass
+
+
+def rec_loop(seed):
+    """code -> spec (IsoGrowth.tla): the sequence of fit_isophote calls of one fit_image run - exponent of the requested sma and returned stop
+    code - recorded by wrapping the method, with a call budget that turns a non-terminating loop into an observation"""
+    from photutils.isophote import Ellipse, EllipseGeometry
+    warnings.simplefilter('ignore')
+    import logging
+    logging.getLogger('astropy').setLevel(logging.ERROR)
+    rng = random.Random(seed)
+    n = rng.choice([61, 81])
+    eps, pa, law = rng.choice([0.1, 0.3, 0.5]), rng.uniform(0.2, 2.9), rng.choice(['exp', 'gauss', 'sersic'])
+    cx, cy = n / 2.0 + rng.uniform(-6, 6), n / 2.0 + rng.uniform(-6, 6)
+    img = galaxy(eps, pa, law, cx, cy, n=n)
+    linear = rng.random() < 0.3
+    sma0 = rng.choice([5.0, 8.0, 12.0, 20.0, 30.0])
+    step = rng.choice([2.0, 4.0, 3.0]) if linear else rng.choice([0.1, 0.2, 0.5, 0.8, 1.0])
+    maxsma = rng.choice([None, None, 15.0, 25.0, 45.0, 90.0, 300.0])       # also far beyond the frame
+    minsma = rng.choice([0.0, 0.0, 0.3, 1.0, 3.0, 7.0])
+    mode = rng.choice(['bilinear', 'bilinear', 'nearest_neighbor', 'mean'])
+    grow = (lambda v: v + step) if linear else (lambda v: v * (1.0 + step))
+    shrink = (lambda v: v - step) if linear else (lambda v: v / (1.0 + step))
+
+    def expo(sma):
+        if sma <= 0:
+            return -1000
+        kk = int(round((sma - sma0) / step)) if linear else int(round(math.log(sma / sma0) / math.log(1.0 + step)))
+        ref = sma0 + kk * step if linear else sma0 * (1.0 + step) ** kk
+        return kk if abs(ref - sma) <= 1e-7 * max(1.0, abs(sma)) else 99999
+    kmax, v = 1, grow(sma0)
+    while maxsma and v < maxsma:
+        v = grow(v); kmax += 1
+    floor = max(minsma, 0.5)
+    kmin, v = 1, shrink(sma0)
+    while v > floor:
+        v = shrink(v); kmin += 1
+    calls = []
+    orig = Ellipse.fit_isophote
+
+    def wrapped(self, sma, *a, **kw):
+        if len(calls) >= 200:
+            raise _Budget()
+        iso = orig(self, sma, *a, **kw)
+        calls.append({'ph': 'central', 'k': 0, 'code': int(iso.stop_code)} if sma == 0.0 else {'ph': 'fit', 'k': expo(sma), 'code': int(iso.stop_code)})
+        return iso
+    rec = {'id': 2 * 10**7 + seed, 'kind': 'loop', 'par': {'HasMax': bool(maxsma), 'KMax': kmax, 'KMin': kmin, 'MinZero': minsma == 0.0, 'Variant': 'repaired'},
+           'budget_exceeded': False, 'raised': False, 'final': [], 'params': {'law': law, 'mode': 'loop:' + mode, 'eps': int(eps * 100), 'fix': 'none', 'pa': 1},
+           'request': {'n': n, 'sma0': sma0, 'step': step, 'linear': linear, 'minsma': minsma, 'maxsma': maxsma or 0.0, 'centre': [cx, cy]}}
+    Ellipse.fit_isophote = wrapped
+    try:
+        g = EllipseGeometry(cx + rng.uniform(-0.4, 0.4), cy + rng.uniform(-0.4, 0.4), sma0, min(0.8, eps + rng.uniform(-0.05, 0.05)), pa + rng.uniform(-0.1, 0.1))
+        iso = Ellipse(img, g).fit_image(sma0=sma0, minsma=minsma, maxsma=maxsma, step=step, linear=linear, integrmode=mode)
+        rec['final'] = [[-1000 if i.sma == 0.0 else expo(i.sma), int(i.stop_code)] for i in iso]
+    except _Budget:
+        rec['budget_exceeded'] = True
+    except Exception as e:  # noqa
+        rec['raised'] = True; rec['exc'] = repr(e)
+    finally:
+        Ellipse.fit_isophote = orig
+    rec['calls'] = calls
+    return rec
+
+
 def rec_polar(seed):
     from photutils.isophote import EllipseGeometry
     rng = random.Random(seed)
@@ -163,8 +228,39 @@ def run(ctx):
     q = ctx.quick
     ctx.rule = ('TLC-enumerated lattice eps {0.05,0.1,0.2,0.5,0.8} x 8 position angles x {Gaussian, exponential, Sersic} x fix flags x integration (bilinear, nearest, mean, median) / growth '
                 'modes x 2 centres x {square, wide, tall, near the left / bottom border, large (sma to 65)} frames x first guess {near, perpendicular PA (round galaxies)}, a seeded stratified sample of which is fitted with fit_image from a perturbed start; non-trivial = eps >= 0.2 or a fix flag set')
-    ctx.mc('IsoGrowth', core.make_cfg(ctx, 'MC_IsoGrowth.cfg', MaxLen=(7 if q else 9)), timeout=1800)
-    ctx.mc('IsoGrowth', 'MC_IsoGrowth_lin.cfg', timeout=600)
+    for cfg in ('MC_IsoGrowth.cfg', 'MC_IsoGrowth_lin.cfg', 'MC_IsoGrowth_inside.cfg', 'MC_IsoGrowth_outside.cfg'):
+        r = ctx.mc('IsoGrowth', cfg, timeout=1800, workers=4)
+    # the loop as it stood in the pinned tree must be REJECTED by TLC: it re-tries an invalid outward fit for ever and indexes an empty list
+    for cfg, what in (('MC_IsoGrowth_pinned_live.cfg', 'Termination'), ('MC_IsoGrowth_pinned_crash.cfg', 'NoCrash')):
+        r = ctx.mc('IsoGrowth', cfg, workers=2, expect_hold=False, check_ok=False)
+        if not r.violated:
+            raise core.Machinery(f'vacuity guard: TLC accepted the pinned growth loop ({what})')
+    loops = core.pmap(rec_loop, [ctx.seed * 7001 + k for k in range(160 if q else 2400)], chunksize=2, on_raise='drop')
+    lver = core.validate_batch(ctx, 'Trace_IsoGrowth', loops, 'Trace:IsoGrowth')
+    for r in loops:
+        v = lver[r['id']]
+        if not v['ok']:
+            rq = r['request']
+            ctx.violation('loop:' + v['clause'], {'law': r['params']['law'], 'mode': r['params']['mode'], 'linear': rq['linear'], 'has_maxsma': bool(rq['maxsma']),
+                                                  'minsma_zero': rq['minsma'] == 0.0, 'kind': 'loop'}, {'case': r, 'rejected_at_event': v.get('at')})
+        else:
+            ctx.traces += 1
+    ctx.evaluations += len(loops); ctx.nontrivial += sum(1 for r in loops if any(c['code'] not in (0, 2) for c in r['calls']))
+    ctx.parts['loop_traces'] = {'runs': len(loops), 'calls': sum(len(r['calls']) for r in loops),
+                                'codes': {str(c): sum(1 for r in loops for e in r['calls'] if e['code'] == c) for c in (-1, 0, 1, 2, 3, 4, 5)}}
+    # binding self-test: drop one call / change one code of an accepted trace
+    lgood = [r for r in loops if lver[r['id']]['ok'] and len(r['calls']) > 4][:4]
+    lbad = []
+    for kk, r in enumerate(lgood):
+        r2 = core.jcopy(r); r2['id'] = 10**9 + 100 + kk
+        if kk % 2:
+            del r2['calls'][2]
+        else:
+            r2['final'][1][0] += 7
+        lbad.append(r2)
+    if lbad:
+        vb = core.validate_batch(ctx, 'Trace_IsoGrowth', lbad, 'SelfTest:IsoGrowth', shards=1)
+        ctx.selftest('dropped call / altered returned exponent in accepted fit_image traces', all(not v['ok'] for v in vb.values()))
     g = ctx.tlc('IsoParams', 'GEN_IsoParams.cfg', part='GEN:IsoParams', workers=1)
     lat = [r for r in g.records if r.get('_tag') == 'GEN']
     rng = random.Random(ctx.seed)
